@@ -81,9 +81,19 @@ def snapshot(root, with_inodes=False, skip=("patches", "series")):
                 data = open(full, "rb").read()
             except OSError:
                 data = b"<unreadable>"
-            ent = ("f", data, stat.S_IMODE(st.st_mode))
+            mode = stat.S_IMODE(st.st_mode)
+            if stat.S_ISLNK(st.st_mode):
+                # a symbolic link to a file is seen as that file (content and mode of the target), which is how
+                # rapidquilt reads it; with_inodes additionally records the link itself
+                try:
+                    mode = stat.S_IMODE(os.stat(full).st_mode)
+                except OSError:
+                    mode = 0
+            ent = ("f", data, mode)
             if with_inodes:
                 ent = ent + (st.st_ino, st.st_mtime_ns)
+                if stat.S_ISLNK(st.st_mode):
+                    ent = ent + (b"->" + os.readlink(full),)
             res[r] = ent
     return res
 
